@@ -471,9 +471,9 @@ func main() {
 				}
 			}
 		}})
-	if len(optDomains) < 2 {
+	if len(optDomains) < 3 {
 		ck.Domains = append(ck.Domains, &drv.Domain{Name: "optional-domains-skipped", Size: 1, Run: func(c *drv.Ctx, lo, hi int64) {
-			c.Cap("a mask-sampler hook does not fit this tree: expandmask-vector and/or expandmask-poly skipped")
+			c.Cap("an optional hook does not fit this tree: one or more of expandmask-vector, expandmask-poly, forced-rejections skipped")
 			c.Outcome("skipped")
 		}})
 	}
